@@ -1006,6 +1006,20 @@ pub fn main(args: &Args) -> i32 {
     report.assume("fd identity is (st_dev, st_ino) of anonymous memfds");
     report.assume("a body that is one struct argument is read back by the library as the struct's members; the wire bytes are identical, so this is accepted as the same value");
     report.note("both byte orders are built by the library itself (Builder::endian; replies inherit it from the call)");
+    // observed, not judged: how a body that is ONE struct argument reads back when asked for as such
+    if let Ok(Ok(m)) = catch(|| Message::method_call("/", "M").and_then(|b| b.build(&((1u8, 2u64),)))) {
+        let r = catch(|| {
+            let b = m.body();
+            (
+                b.signature().to_string(),
+                b.deserialize::<((u8, u64),)>().map_err(zerr),
+                b.deserialize::<(u8, u64)>().map_err(zerr),
+            )
+        });
+        report.note(format!(
+            "observation (not judged): body built from the 1-tuple ((1u8, 2u64),) has header SIGNATURE \"(yt)\"; body().signature(), deserialize::<((u8,u64),)>, deserialize::<(u8,u64)> = {r:?}"
+        ));
+    }
     report.finish(
         "product of message type × settable header-field subsets (value lists per tier) × 8 flag subsets × byte order × body corpus (dynamic and typed routes) × automatic/explicit serial × builder route; a case is non-trivial when the builder produced a message (distinct logical cases counted)",
         true,
